@@ -508,7 +508,8 @@ func (x *Exec) frameObligations(final, entry *State, c *Contract) {
 			all = true
 		case strings.HasPrefix(m, "heap(") && strings.HasSuffix(m, ")"):
 			if t := x.prog.resolveType(c.PkgPath, m[5:len(m)-1]); t != nil {
-				covered[heapKey(x.vc.sortOf(t))] = true
+				hk, _ := x.heapKeyT(t)
+				covered[hk] = true
 			}
 		case strings.HasPrefix(m, "*"):
 			// *param: any heap may be the pointee; frames are not generated for extern/interface contracts anyway
@@ -554,7 +555,7 @@ func (x *Exec) frameObligations(final, entry *State, c *Contract) {
 		if strings.HasPrefix(k, "H:") {
 			// objects of an unexported struct type of another package cannot be observed by this
 			// function's callers: no frame obligation (the owning package states its own frames)
-			if inf := x.vc.info(strings.TrimPrefix(k, "H:")); inf != nil && inf.GoT != nil {
+			if inf := x.vc.info(strings.SplitN(strings.TrimPrefix(k, "H:"), "@", 2)[0]); inf != nil && inf.GoT != nil && !strings.Contains(k, "@") {
 				if n, ok := inf.GoT.(*types.Named); ok && !n.Obj().Exported() && n.Obj().Pkg() != nil && n.Obj().Pkg().Path() != c.PkgPath {
 					continue
 				}
